@@ -1,7 +1,7 @@
 (* C08 correspondence: observed behaviour of the real server/visitor.Manager, the real
    nathole.Controller and an in-process frps against Model/Visitor.v, plus the property
    monitors evaluated on the observations alone. *)
-From FRP Require Export Corr.Common Model.Visitor.
+From FRP Require Export Corr.Common Model.Visitor Model.VisitorPath.
 Open Scope Z_scope.
 
 (* util.GetAuthKey is an oracle: the driver lists the real function's value for every
@@ -153,11 +153,15 @@ Definition nh_tss (ops : list nh_op) : list Z :=
      SAccept        ObsAccept (owner received the work-connection request and StartWorkConn for that proxy ...)
      SNatHole       ObsNh resp notified others -1 -1 (session counts are not observable from outside)
      others         ObsZ 0 *)
+(* NewProxyResp: 0 no error | 1 "already exists" | 2 "repeated" | 3 "already in use" | 7 no session *)
+Definition reg_out_code (o : sout) : Z :=
+  match o with
+  | OReg VLOk => 0 | ORegErrExists => 1 | OReg VLErrRepeated => 2 | ORegErrInUse => 3 | ONoSession => 7 | _ => 99
+  end.
+
 Definition sys_obs_ok (op : sop) (o : sout) (ob : vobs) : bool :=
   match op, o, ob with
-  | SRegister _ _ _ _ _, OReg r, ObsZ z => z =? lout_code r
-  | SRegister _ _ _ _ _, ORegErrExists, ObsZ z => z =? 1
-  | SRegister _ _ _ _ _, ONoSession, ObsZ z => z =? 7
+  | (SRegister _ _ _ _ _ | SRegisterLate _ _ _ _ _), (OReg _ | ORegErrExists | ORegErrInUse | ONoSession), ObsZ z => z =? reg_out_code o
   | SVisitorConn _ _ _ _ _ _ _ _, OVis r, ObsZ z => z =? vm_out_code r
   | SVisitorConn _ _ _ _ _ _ _ _, OVisErrNoControl, ObsZ z => z =? 8
   | SAccept _, OAccepted c, _ => obs_eq_accept (Some c) ob
@@ -172,7 +176,7 @@ Definition sys_obs_ok (op : sop) (o : sout) (ob : vobs) : bool :=
 
 Definition sys_op_code (op : sop) : Z :=
   match op with
-  | SLogin _ _ => 31 | SLogout _ => 32 | SRegister _ _ _ _ _ => 33 | SClose _ _ => 34
+  | SLogin _ _ => 31 | SLogout _ => 32 | SRegister _ _ _ _ _ => 33 | SRegisterLate _ _ _ _ _ => 40 | SClose _ _ => 34
   | SVisitorConn _ _ _ _ _ _ _ _ => 35 | SNatHole _ _ _ _ pre _ _ => if pre then 36 else 37
   | SSessionEnd _ => 38 | SAccept _ => 39
   end.
@@ -187,7 +191,7 @@ Fixpoint sys_replay (hash : bytes -> Z -> bytes) (s : sys) (i : Z) (ops : list s
   end.
 
 Definition sys_sks (ops : list sop) : list bytes :=
-  flat_map (fun op => match op with SRegister _ _ _ sk _ => [sk] | _ => [] end) ops.
+  flat_map (fun op => match op with SRegister _ _ _ sk _ | SRegisterLate _ _ _ sk _ => [sk] | _ => [] end) ops.
 Definition sys_tss (ops : list sop) : list Z :=
   flat_map (fun op => match op with SVisitorConn _ _ ts _ _ _ _ _ => [ts] | SNatHole _ _ ts _ _ _ _ => [ts] | _ => [] end) ops.
 
@@ -198,7 +202,27 @@ Inductive case :=
 | CVm (tbl : htable) (ops : list vm_op) (obs : list vobs)
 | CNh (tbl : htable) (ops : list nh_op) (obs : list vobs)
 | CSys (tbl : htable) (ops : list sop) (obs : list vobs)
-| CE2E (vue vuc pue puc : bool) (kind : Z) (len : Z) (forward_ok backward_ok : bool) (backend_conns : Z).
+| CE2E (vue vuc pue puc : bool) (kind : Z) (len : Z) (forward_ok backward_ok : bool) (backend_conns : Z)
+  (* an owner configuration in format fmt (0 toml 1 yaml 2 json 3 legacy ini 4 command-line flags) loaded by the real
+     loader, completed, marshalled into NewProxy and registered on an in-process frps by a session of [owner]; then a
+     correctly signed request of [visitor]'s session: the allowUsers the message carried, and whether it was admitted *)
+| CCfg (fmt : Z) (k : pkind) (src : cfg_allow) (owner visitor : bytes) (wire : list bytes) (admitted : bool)
+  (* xtcp data path after the hole is punched: real XTCPProxy listen function (0 kcp, 1 quic) against the real xtcp
+     visitor over loopback UDP, both ends with the same flags, token <> secret key; backend that echoes / speaks first *)
+| CXtcp (proto : Z) (ue uc : bool) (speaks_first : bool) (transparent : bool) (backend_conns : Z)
+  (* real stcp (0) / sudp (1) visitor against a server that writes the NewVisitorConnResp frame and the first
+     bytes of the stream in one write *)
+| CFirst (kind : Z) (ue uc : bool) (delivered : bool).
+
+Definition fmt_of (z : Z) : cfg_format :=
+  if z =? 0 then FToml else if z =? 1 then FYaml else if z =? 2 then FJson else if z =? 3 then FIni else FFlags.
+
+Fixpoint blist_eqb (a b : list bytes) : bool :=
+  match a, b with
+  | [], [] => true
+  | x :: a', y :: b' => bytes_eqb x y && blist_eqb a' b'
+  | _, _ => false
+  end.
 
 (* ---- property monitors on the observations alone ---- *)
 (* A minimal specification state: which registrations are live, by name. *)
@@ -269,7 +293,7 @@ Fixpoint mon_sys (hash : bytes -> Z -> bytes) (m : msys) (adm : list (bytes * Z)
           mon_sys hash {| ms_users := vset rid user (ms_users m); ms_live := ms_drop_owner rid (ms_live m) |} adm ops' obs'
       | SLogout rid, _ =>
           mon_sys hash {| ms_users := vdel rid (ms_users m); ms_live := ms_drop_owner rid (ms_live m) |} adm ops' obs'
-      | SRegister rid k name sk allow, ObsZ z =>
+      | (SRegister rid k name sk allow | SRegisterLate rid k name sk allow), ObsZ z =>
           if z =? 0 then
             match vget rid (ms_users m) with
             | Some u => mon_sys hash {| ms_users := ms_users m;
@@ -327,10 +351,19 @@ Definition C08_holds (c : case) : bool :=
       (* kind 0: right key and allowed user: transparent, backend contacted once;
          kind 1 (wrong key) / 2 (user outside the default allowUsers): nothing comes back, backend never contacted *)
       if kind =? 0 then fw && bw && (n =? 1) else negb fw && negb bw && (n =? 0)
+  | CCfg fmt k src owner visitor wire admitted =>
+      (* the property itself: with the default (absent or empty list) only the owner's user gets in; '*' = anyone *)
+      Bool.eqb admitted
+        (match src with
+         | CAbsent | CList [] => bytes_eqb visitor owner || bytes_eqb owner vstar
+         | CList l => vmem visitor l || vmem vstar l
+         end)
+  | CXtcp _ _ _ _ tr n => tr && (n =? 1)
+  | CFirst _ _ _ ok => ok
   end.
 
 (* 0 = model and implementation agree and the monitor holds; 1 oracle table incomplete; 2 lengths differ;
-   3 monitor fails although the replay agrees; 4 end-to-end observation fails; 11-15 / 21-24 / 31-39: kind of the first operation on which model and implementation disagree *)
+   3 monitor fails although the replay agrees; 4 end-to-end observation fails; 41 allowUsers on the wire differs from the loaded configuration; 42 admission differs from the configured list; 43 xtcp tunnel stream; 44 bytes behind the response frame; 11-15 / 21-24 / 31-39: kind of the first operation on which model and implementation disagree *)
 Definition check_case (c : case) : Z :=
   match c with
   | CVm tbl ops obs =>
@@ -346,6 +379,12 @@ Definition check_case (c : case) : Z :=
       else let r := sys_replay (ohash tbl) sys_init 0 ops obs in
            if negb (r =? 0) then r else if C08_holds c then 0 else 3
   | CE2E _ _ _ _ _ _ _ _ _ => if C08_holds c then 0 else 4
+  | CCfg fmt k src owner visitor wire admitted =>
+      if negb (blist_eqb wire (load_allow (fmt_of fmt) src)) then 41
+      else if negb (Bool.eqb admitted (cfg_admits [] (fmt_of fmt) src owner visitor)) then 42
+      else if C08_holds c then 0 else 3
+  | CXtcp _ _ _ _ _ _ => if C08_holds c then 0 else 43
+  | CFirst _ _ _ _ => if C08_holds c then 0 else 44
   end.
 
 (* counters for the evidence: how often each model branch was observed *)
@@ -372,4 +411,13 @@ Definition n_sys_nh_resp (z : Z) : list case -> Z :=
   sum_over sys_pairs (fun p => match p with (SNatHole _ _ _ _ _ _ _, ObsNh r None _ _ _) => r =? z | _ => false end).
 Definition n_nh_undelivered : list case -> Z :=
   sum_over nh_pairs (fun p => match p with (NhVisitor _ _ _ false _ false, ObsNh 9 None _ _ _) => true | _ => false end).
+Definition n_cfg (fmt : Z) : list case -> Z :=
+  count_if (fun c => match c with CCfg f _ _ _ _ _ _ => f =? fmt | _ => false end).
+Definition n_cfg_default_refused : list case -> Z :=
+  count_if (fun c => match c with CCfg _ _ (CAbsent | CList []) _ _ _ false => true | _ => false end).
+Definition n_xtcp (proto : Z) : list case -> Z :=
+  count_if (fun c => match c with CXtcp p _ _ _ _ _ => p =? proto | _ => false end).
+Definition n_first : list case -> Z := count_if (fun c => match c with CFirst _ _ _ _ => true | _ => false end).
+Definition n_sys_late : list case -> Z :=
+  sum_over sys_pairs (fun p => match p with (SRegisterLate _ _ _ _ _, ObsZ z) => negb (z =? 0) | _ => false end).
 Definition n_e2e : list case -> Z := count_if (fun c => match c with CE2E _ _ _ _ _ _ _ _ _ => true | _ => false end).
